@@ -246,6 +246,51 @@ def h_generation_step(c):
           're-encoding the generated event decodes to it again')
 
 
+def h_extend(c):
+  """extend_event_sequences, the generation helper itself: a beam of B
+  histories, a softmax of T time steps per history (T = the primer length on
+  the first generation step, 1 afterwards) whose rows are one-hot at symbolic
+  labels; np.random.choice is a nondeterministic stub returning any index of
+  positive probability.  The event appended to each history must be the one
+  the label of the LAST time step denotes for THAT history."""
+  ed = c.mod('encoder_decoder')
+  med = c.mod('melody_encoder_decoder')
+  ml = c.mod('melodies_lib')
+  H, T, B = c.params['H'], c.params['T'], c.params.get('B', 2)
+  oh = med.MelodyOneHotEncoding(LO, HI)
+  if c.params['enc'] == 'lookback':
+    enc = ed.LookbackEventSequenceEncoderDecoder(oh, [1, 2], 3)
+  else:
+    enc = ed.OneHotEventSequenceEncoderDecoder(oh)
+  n = enc.num_classes
+  hists, labels, seqs, softmax = [], [], [], []
+  for b in range(B):
+    hist = [_valid_event(c, 'b%d_h%d' % (b, i)) for i in range(H)]
+    labs = [c.int('b%d_l%d' % (b, t), 0, n - 1) for t in range(T)]
+    hists.append(hist)
+    labels.append(labs)
+    seqs.append(ml.Melody(list(hist)))
+    softmax.append([[c.If(c.eq(lab, k), 1.0, 0.0) for k in range(n)]
+                    for lab in labs])
+  before = [list(m) for m in seqs]
+  chosen = enc.extend_event_sequences(seqs, softmax)
+  c.check(len(chosen) == B, 'one chosen class per sequence')
+  for b in range(B):
+    c.check(c.eq(chosen[b], labels[b][-1]),
+            'the class is sampled from the last time step of this sequence\'s '
+            'softmax')
+    want = enc.class_index_to_event(labels[b][-1], list(before[b]))
+    now = list(seqs[b])
+    c.check(len(now) == H + 1 and bool(c.And(
+        [c.eq(x, y) for x, y in zip(now[:H], before[b])] or [True])),
+            'the history is kept and grows by exactly one event')
+    c.check(c.eq(now[-1], want),
+            'the appended event is class_index_to_event(label, history)')
+  if T >= 2:
+    c.cover('first and last time step disagree',
+            c.Not(c.eq(labels[0][0], labels[0][-1])))
+
+
 def h_keymelody(c):
   med = c.mod('melody_encoder_decoder')
   L, p, nl = c.params['L'], c.params['p'], c.params['nl']
@@ -493,6 +538,7 @@ HARNESSES = {
     'h_lookback_input': h_lookback_input,
     'h_onehot': h_onehot,
     'h_generation_step': h_generation_step,
+    'h_extend': h_extend,
     'h_keymelody': h_keymelody,
     'h_keymelody_input': h_keymelody_input,
     'h_conditional': h_conditional,
@@ -520,6 +566,12 @@ def jobs(tier):
   for encn in ('lookback', 'keymelody', 'onehot'):
     for H in (0, 1, 3):
       add('h_generation_step', enc=encn, H=H, nl=2 if encn != 'onehot' else 0)
+  # the generation helper: first step after a primer (T = primer length) and
+  # later steps (T = 1), beam of 2
+  add('h_extend', enc='onehot', H=2, T=2)
+  add('h_extend', enc='onehot', H=1, T=1)
+  add('h_extend', enc='lookback', H=3, T=3, B=1, budget=600)
+  add('h_extend', enc='lookback', H=2, T=1, budget=600)
   for p in range(Lq):
     add('h_keymelody', L=Lq, p=p, nl=2)
   add('h_keymelody', L=2, p=1, nl=1)
